@@ -190,6 +190,7 @@ def check_factory(cfg):
         decided = set()
         polls_since_pause = {}
         resumed_after_polls = {}
+        raised_on_stale = None
         for e in log:
             k = e[0]
             if k in ("sim_clock", "sim_schedule", "sleep_before", "sleep_after", "sim_pause", "sim_stop"):
@@ -230,6 +231,8 @@ def check_factory(cfg):
                 stt = res.get("st_tuner_time")
                 if stt is not None and stt < run["T_s"] + sc_start["delay_start"] - 1e-9:
                     variant = "resumed-in-the-iteration-it-was-paused" if resumed_after_polls.get(t) == 0 else "after-intervening-polls"
+                    if dec == "RAISED":
+                        raised_on_stale = variant
                     v.append((f"sim:stale-result-of-previous-run:{variant}",
                               f"trial {t}: result at level {res.get('epoch')} stamped {stt} was delivered to the run started at "
                               f"{run['T_s']} (+delay_start {sc_start['delay_start']}): it was reported by the previous run of the trial, "
@@ -292,7 +295,9 @@ def check_factory(cfg):
             if rows_ != delivered:
                 v.append(("sim:results-table-differs", f"{len(rows_)} rows vs {len(delivered)} delivered results"))
         if ex.exc is not None and ex.exc[0] != "LoopCap":
-            v.append((f"exc:{ex.exc[0]}@{ex.exc[1]}", f"{ex.exc[0]} escaped Tuner.run at {ex.exc[1]}: {ex.exc[2]}"))
+            # root cause named in the key: the scheduler raised on a stale result of the previous run (reported separately above)
+            why = f":on-stale-result-of-previous-run:{raised_on_stale}" if raised_on_stale and ex.exc[1].endswith("on_trial_result") else ""
+            v.append((f"exc:{ex.exc[0]}@{ex.exc[1]}{why}", f"{ex.exc[0]} escaped Tuner.run at {ex.exc[1]}: {ex.exc[2]}"))
         ex.n_rows = sum(1 for e in log if e[0] == "on_trial_result")
         out, seen = [], set()
         for key, msg in v:
